@@ -64,6 +64,305 @@ def _mult(f, e, var):
     return None
 
 
+def _lt_form(f, c, pol):
+    """a relational branch condition and its outcome as (`l < r`, truth): `a < b`,
+    `b > a`, `!(a >= b)` and `!(b <= a)` are the same fact.  (l node, r node, bool) or None"""
+    c = cu.strip_casts(f, c)
+    if c is None or c['k'] != 'bin' or c['op'] not in ('<', '<=', '>', '>='):
+        return None
+    l, r = f.kid(c, 0), f.kid(c, 1)
+    if c['op'] == '<':
+        return l, r, pol
+    if c['op'] == '>=':
+        return l, r, not pol
+    if c['op'] == '>':
+        return r, l, pol
+    return r, l, not pol
+
+
+def _eq_form(f, c, pol):
+    """(`l == r`, truth) for an equality test or its negation"""
+    c = cu.strip_casts(f, c)
+    if c is None or c['k'] != 'bin' or c['op'] not in ('==', '!='):
+        return None
+    return f.kid(c, 0), f.kid(c, 1), (pol if c['op'] == '==' else not pol)
+
+
+class _Comparer(object):
+    """One literal comparer, read as: a size guard, a counting loop `ctr < length`, reads
+    of the data at a * ctr + c, and a returned length.  The data may be walked by a
+    cursor (`*s1++`, `s1 += 2`, `*(s1 + 1)`), by index (`data[pos]`, `data[2 * pos + 1]`)
+    or through a local naming `data + 2 * pos`."""
+
+    def __init__(self, f):
+        self.f = f
+        ps = [p['name'] for p in f.params]
+        self.data, self.dsize, self.s, self.slen = ps[0], ps[1], ps[2], ps[3]
+        self.key_out = ps[4] if len(ps) > 4 else None
+        self.loops = [n for n in f.all_nodes() if n['k'] in ('while', 'for', 'do')]
+        # the counter: compared with the length by a loop condition, stepped inside the loop
+        self.ctr = None
+        for lp in self.loops:
+            for x in f.walk(self._loop_cond(lp)):
+                fm = _lt_form(f, x, True)
+                if fm is not None and canon(f, fm[1]) == self.slen:
+                    l = cu.strip_casts(f, fm[0])
+                    if l is not None and l['k'] == 'ref':
+                        self.ctr = l['name']
+        self.cursors = {}        # pointer local -> (base, stride per iteration)
+        for base in (self.data, self.s):
+            fam = set([base])
+            for d in f.all_nodes():
+                if d['k'] == 'decl' and d.get('c') and canon(f, f.kid(d, 0)) in fam and \
+                        not self._in_loop(d):
+                    fam.add(d['name'])
+            for nm in fam:
+                stride = 0
+                for n in f.all_nodes():
+                    if not self._in_loop(n):
+                        continue
+                    if n['k'] == 'un' and n['op'] in ('post++', '++') and canon(f, f.kid(n, 0)) == nm:
+                        stride += 1
+                    if n['k'] == 'bin' and n['op'] == '+=' and canon(f, f.kid(n, 0)) == nm:
+                        stride += cu.const_of(cu.strip_casts(f, f.kid(n, 1))) or 99
+                self.cursors[nm] = (base, stride)
+
+    def _loop_cond(self, lp):
+        f = self.f
+        if lp['k'] == 'for':
+            parts = lp.get('parts', [])
+            return f.node(parts[1]) if len(parts) > 1 and parts[1] >= 0 else None
+        if lp['k'] == 'while':
+            return f.kid(lp, 0)
+        ks = f.kids(lp)
+        return ks[-1] if ks else None
+
+    def _in_loop(self, n):
+        return any(a['k'] in ('while', 'for', 'do') for a in self.f.ancestors(n)) or \
+            any(lp is not None and any(x is n for x in self.f.walk(self._loop_cond(lp))) for lp in self.loops)
+
+    def _lin(self, e):
+        """e as a * ctr + c: (a, c) or None"""
+        f = self.f
+        e = cu.strip_casts(f, e)
+        if e is None:
+            return None
+        v = cu.const_of(e)
+        if v is not None:
+            return (0, v)
+        if e['k'] == 'ref':
+            if e['name'] == self.ctr:
+                return (1, 0)
+            d = cu.stable_def_of(f, e)
+            return self._lin(d) if d is not None else None
+        if e['k'] == 'bin' and e['op'] in ('+', '-'):
+            x, y = self._lin(f.kid(e, 0)), self._lin(f.kid(e, 1))
+            if x is None or y is None:
+                return None
+            sg = 1 if e['op'] == '+' else -1
+            return (x[0] + sg * y[0], x[1] + sg * y[1])
+        if e['k'] == 'bin' and e['op'] == '*':
+            x, y = self._lin(f.kid(e, 0)), self._lin(f.kid(e, 1))
+            if x is None or y is None:
+                return None
+            if x[0] == 0:
+                return (x[1] * y[0], x[1] * y[1])
+            if y[0] == 0:
+                return (y[1] * x[0], y[1] * x[1])
+            return None
+        if e['k'] == 'bin' and e['op'] == '<<':
+            x, y = self._lin(f.kid(e, 0)), self._lin(f.kid(e, 1))
+            if x is None or y is None or y[0] != 0:
+                return None
+            return (x[0] << y[1], x[1] << y[1])
+        return None
+
+    def _ptr(self, e, depth=0):
+        """pointer expression e as (base, a, c): base + a * ctr + c"""
+        f = self.f
+        e = cu.strip_casts(f, e)
+        if e is None or depth > 6:
+            return None
+        if e['k'] == 'un' and e['op'] in ('post++', '++'):
+            return self._ptr(f.kid(e, 0), depth + 1)
+        if e['k'] == 'ref':
+            if e['name'] in self.cursors:
+                base, stride = self.cursors[e['name']]
+                return (base, stride, 0)
+            d = cu.stable_def_of(f, e)
+            return self._ptr(d, depth + 1) if d is not None else None
+        if e['k'] == 'bin' and e['op'] == '+':
+            for x, y in ((f.kid(e, 0), f.kid(e, 1)), (f.kid(e, 1), f.kid(e, 0))):
+                p0 = self._ptr(x, depth + 1)
+                ln = self._lin(y)
+                if p0 is not None and ln is not None:
+                    return (p0[0], p0[1] + ln[0], p0[2] + ln[1])
+        return None
+
+    def reads(self, base):
+        """[(node, a, c, in loop)]: dereferences and subscripts that read `base`"""
+        f = self.f
+        out = []
+        for n in f.all_nodes():
+            pt = None
+            if n['k'] == 'un' and n['op'] == '*':
+                pt = self._ptr(f.kid(n, 0))
+            elif n['k'] == 'sub':
+                p0 = self._ptr(f.kid(n, 0))
+                ln = self._lin(f.kid(n, 1))
+                if p0 is not None:
+                    pt = (p0[0], p0[1] + ln[0], p0[2] + ln[1]) if ln is not None else (p0[0], 99, 99)
+            if pt is not None and pt[0] == base:
+                par = f.parent(n)
+                if par is not None and par['k'] == 'bin' and par['op'] == '=' and f.kid(par, 0) is n:
+                    continue
+                out.append((n, pt[1], pt[2], self._in_loop(n)))
+        return out
+
+    def guard(self):
+        """(node, multiplier) of the test `data_size < string_length * m` in whatever form"""
+        f = self.f
+        best = None
+        for n in f.all_nodes():
+            if n['k'] not in ('if', 'cond'):
+                continue
+            for x in f.walk(f.kid(n, 0)):
+                fm = _lt_form(f, x, True)
+                if fm is not None and canon(f, fm[0]) == self.dsize:
+                    m = _mult(f, fm[1], self.slen)
+                    if m is not None:
+                        best = (n, x, m)
+        return best
+
+    def facts_at(self, at):
+        """must-hold facts in front of the nodes `at`: ('fits', m) = data_size >= length * m
+        was established, ('inb',) = ctr < length holds"""
+        f = self.f
+        seen = {}
+
+        def step(n, facts):
+            if n['i'] in at:
+                cur = seen.get(n['i'])
+                seen[n['i']] = set(facts) if cur is None else (cur & set(facts))
+            w = None
+            if n['k'] == 'bin' and n['op'].endswith('=') and n['op'] not in ('==', '!=', '<=', '>='):
+                w = cu.strip_casts(f, f.kid(n, 0))
+            elif n['k'] == 'un' and n['op'] in ('++', '--', 'post++', 'post--'):
+                w = cu.strip_casts(f, f.kid(n, 0))
+            if w is not None and w['k'] == 'ref' and w['name'] == self.ctr:
+                return frozenset(x for x in facts if x[0] != 'inb')
+            if n['k'] == 'ret':
+                return None
+            return facts
+
+        def edge(b, term, cond, idx, succ, facts):
+            pol = paths.branch_polarity(f, term, idx)
+            if pol is None or cond is None:
+                return facts
+            c, p2 = paths.normalise_cond(f, cond, pol)
+            fm = _lt_form(f, c, p2) if c is not None else None
+            if fm is None:
+                return facts
+            if canon(f, fm[0]) == self.dsize and not fm[2]:
+                m = _mult(f, fm[1], self.slen)
+                if m is not None:
+                    return frozenset(facts) | {('fits', m)}
+            if self.ctr and canon(f, fm[0]) == self.ctr and canon(f, fm[1]) == self.slen and fm[2]:
+                return frozenset(facts) | {('inb',)}
+            return facts
+        paths.explore(f, set(), step, edge, max_states=50000)
+        return seen
+
+    # -- returned length ---------------------------------------------------
+    def _form(self, e, facts):
+        """what an expression yields: 0, ('len', m) = length * m for a complete compare,
+        or ('bad', text)"""
+        f = self.f
+        e = cu.strip_casts(f, e)
+        if e is None:
+            return ('bad', '?')
+        if cu.const_of(e) == 0:
+            return 0
+        if e['k'] == 'cond':
+            c = f.kid(e, 0)
+            fm = _eq_form(f, c, True)
+            complete = fm is not None and set([canon(f, fm[0]), canon(f, fm[1])]) == set([self.ctr, self.slen])
+            a = self._form(f.kid(e, 1), facts | {('done',)} if complete else facts)
+            b = self._form(f.kid(e, 2), facts)
+            if b == 0:
+                return a
+            return ('bad', canon(f, e)[:60])
+        if e['k'] == 'ref':
+            for x in facts:
+                if x[0] == 'val' and x[1] == e['name']:
+                    return x[2]
+        for var in (self.slen, self.ctr):
+            m = _mult(f, e, var) if var else None
+            if m is not None:
+                if ('done',) in facts:
+                    return ('len', m)
+                return ('bad', '%s although the compare may be incomplete' % canon(f, e)[:40])
+        return ('bad', canon(f, e)[:60])
+
+    def returns(self):
+        """[(ret node, form)] over all paths"""
+        f = self.f
+        out = {}
+        conds = set()
+        for lp in self.loops:
+            c = self._loop_cond(lp)
+            if c is not None:
+                conds |= set(x['i'] for x in f.walk(c))
+
+        def setval(facts, name, form):
+            return frozenset(x for x in facts if not (x[0] == 'val' and x[1] == name)) | {('val', name, form)}
+
+        def step(n, facts):
+            if n['k'] == 'decl' and n.get('c') and n.get('t', '').replace('const ', '') in (
+                    'int', 'size_t', 'unsigned int', 'uint32_t', 'int32_t', 'long', 'unsigned long'):
+                if n['name'] != self.ctr:
+                    return setval(facts, n['name'], self._form(f.kid(n, 0), facts))
+            if n['k'] == 'bin' and n['op'] == '=':
+                l = cu.strip_casts(f, f.kid(n, 0))
+                if l is not None and l['k'] == 'ref' and l['name'] != self.ctr and \
+                        l['name'] not in self.cursors:
+                    return setval(facts, l['name'], self._form(f.kid(n, 1), facts))
+            w = None
+            if n['k'] == 'bin' and n['op'].endswith('=') and n['op'] not in ('==', '!=', '<=', '>='):
+                w = cu.strip_casts(f, f.kid(n, 0))
+            elif n['k'] == 'un' and n['op'] in ('++', '--', 'post++', 'post--'):
+                w = cu.strip_casts(f, f.kid(n, 0))
+            if w is not None and w['k'] == 'ref' and w['name'] == self.ctr:
+                return frozenset(x for x in facts if x[0] != 'done')
+            if n['k'] == 'ret':
+                form = self._form(f.kid(n, 0), facts) if n.get('c') else ('bad', 'nothing')
+                out.setdefault(n['i'], set()).add(form)
+                return None
+            return facts
+
+        def edge(b, term, cond, idx, succ, facts):
+            pol = paths.branch_polarity(f, term, idx)
+            if pol is None or cond is None:
+                return facts
+            c, p2 = paths.normalise_cond(f, cond, pol)
+            if c is None:
+                return facts
+            fm = _eq_form(f, c, p2)
+            if fm is not None and set([canon(f, fm[0]), canon(f, fm[1])]) == set([self.ctr, self.slen]):
+                if fm[2]:
+                    return frozenset(facts) | {('done',)}
+                return frozenset(x for x in facts if x[0] != 'done')
+            fm = _lt_form(f, c, p2)
+            if fm is not None and canon(f, fm[0]) == self.ctr and canon(f, fm[1]) == self.slen and \
+                    not fm[2] and cond['i'] in conds:
+                # the loop ran out of characters: every one compared equal (a mismatch leaves
+                # the loop by another edge)
+                return frozenset(facts) | {('done',)}
+            return facts
+        paths.explore(f, set(), step, edge, max_states=50000)
+        return [(f.node(i), fm) for i, fms in sorted(out.items()) for fm in sorted(fms, key=repr)]
+
+
 def r1_1(ctx):
     prog = ctx.prog
     for name, (wide, nocase, xor) in sorted(COMPARERS.items()):
@@ -72,128 +371,84 @@ def r1_1(ctx):
             ctx.require(ctx.fixture, 'comparer %s not found' % name)
             continue
         want = 2 if wide else 1
-        ps = [p['name'] for p in f.params]
-        data, dsize, s, slen = ps[0], ps[1], ps[2], ps[3]
         where = '%s:%s' % (f.file, f.line)
-        # cursor aliases of the data pointer
-        cur = set([data])
-        for d in f.all_nodes():
-            if d['k'] == 'decl' and d.get('c') and canon(f, f.kid(d, 0)) in cur:
-                cur.add(d['name'])
-        # guard
-        guard = None
-        for n in f.all_nodes():
-            if n['k'] == 'if':
-                c = cu.strip_casts(f, f.kid(n, 0))
-                if c is not None and c['k'] == 'bin' and c['op'] == '<' and \
-                        canon(f, f.kid(c, 0)) == dsize:
-                    m = _mult(f, f.kid(c, 1), slen)
-                    if m is not None:
-                        guard = (n, c, m)
+        cm = _Comparer(f)
+        slen, ctr = cm.slen, cm.ctr
+        guard = cm.guard()
         ctx.ob('R1.1', name + ':size-guard', guard is not None and guard[2] == want,
                f.loc(guard[0]) if guard else where,
                'rejects data_size < string_length * %d' % want if guard is not None and guard[2] == want
                else 'the size guard is %s; a %s comparer needs data_size >= string_length * %d' % (
                    canon(f, guard[1]) if guard else 'missing', 'wide' if wide else 'narrow', want))
-        # stride of the data cursor per loop iteration
-        stride = 0
-        for n in f.all_nodes():
-            if n['k'] == 'un' and n['op'] in ('post++', '++') and canon(f, f.kid(n, 0)) in cur:
-                stride += 1
-            if n['k'] == 'bin' and n['op'] == '+=' and canon(f, f.kid(n, 0)) in cur:
-                stride += cu.const_of(cu.strip_casts(f, f.kid(n, 1))) or 99
-        ctx.ob('R1.1', name + ':cursor-stride', stride == want, where,
-               'the data cursor advances %d byte(s) per compared character' % stride if stride == want
-               else 'the data cursor advances %d byte(s) per compared character, the guard and the '
-                    'format need %d' % (stride, want))
-        # look-ahead: *(cur + c)
-        ahead = 0
-        reads = []
-        for n in f.all_nodes():
-            if n['k'] == 'un' and n['op'] == '*':
-                e = cu.strip_casts(f, f.kid(n, 0))
-                if e is None:
-                    continue
-                if e['k'] == 'un' and e['op'] in ('post++', '++'):
-                    e = cu.strip_casts(f, f.kid(e, 0))
-                if e is not None and e['k'] == 'ref' and e['name'] in cur:
-                    reads.append(n)
-                elif e is not None and e['k'] == 'bin' and e['op'] == '+' and \
-                        canon(f, f.kid(e, 0)) in cur:
-                    c = cu.const_of(cu.strip_casts(f, f.kid(e, 1)))
-                    ahead = max(ahead, c if c is not None else 99)
-                    reads.append(n)
-            if n['k'] == 'sub' and canon(f, f.kid(n, 0)) in cur:
-                c = cu.const_of(cu.strip_casts(f, f.kid(n, 1)))
-                ahead = max(ahead, c if c is not None else 99)
-                reads.append(n)
-        ctx.ob('R1.1', name + ':look-ahead-within-stride', ahead < want and bool(reads), where,
-               'reads at most %d byte(s) beyond the cursor (%d read sites)' % (ahead, len(reads))
-               if ahead < want and reads else
-               'reads the data %d byte(s) beyond the cursor with a stride of %d' % (ahead, want))
+        reads = cm.reads(cm.data)
+        inloop = [r for r in reads if r[3]]
+        strides = sorted(set(r[1] for r in inloop))
+        ok = bool(inloop) and strides == [want]
+        ctx.ob('R1.1', name + ':cursor-stride', ok, f.loc(inloop[0][0]) if inloop else where,
+               'the data position advances %d byte(s) per compared character (%d reads in the loop)' % (
+                   want, len(inloop)) if ok else
+               'the data position advances %s byte(s) per compared character, the guard and the '
+               'format need %d' % ('/'.join(str(x) for x in strides) or '0', want))
+        ahead = max([r[2] for r in reads] or [0])
+        low = min([r[2] for r in reads] or [0])
+        ok = bool(reads) and 0 <= low and ahead < want
+        ctx.ob('R1.1', name + ':look-ahead-within-stride', ok, where,
+               'reads at most %d byte(s) beyond the position of the current character (%d read sites)' % (
+                   ahead, len(reads)) if ok else
+               'reads the data %d byte(s) beyond the position of the current character with a stride of %d' % (
+                   ahead if ahead >= want else low, want))
         # returned length
-        ret_mult = None
-        succ_cond = None
-        ctr = None
-        for n in f.all_nodes():
-            if n['k'] == 'bin' and n['op'] == '<' and canon(f, f.kid(n, 1)) == slen and \
-                    cu.strip_casts(f, f.kid(n, 0))['k'] == 'ref' and \
-                    any(a['k'] in ('while', 'for') for a in f.ancestors(n)):
-                ctr = canon(f, f.kid(n, 0))
-        ctr = ctr or 'i'
-        for n in f.all_nodes():
-            if n['k'] == 'cond':
-                m = _mult(f, f.kid(n, 1), ctr)
-                if m is not None and cu.const_of(cu.strip_casts(f, f.kid(n, 2))) == 0:
-                    ret_mult = m
-                    succ_cond = canon(f, f.kid(n, 0))
-        ok = ret_mult == want and succ_cond in ('(%s == %s)' % (ctr, slen), '(%s == %s)' % (slen, ctr))
-        ctx.ob('R1.1', name + ':returned-length', ok, where,
-               'returns count * %d when count == %s, else 0' % (want, slen) if ok else
-               'returns count * %s under %s: the reported match length must be string_length * %d for a '
-               'complete compare' % (ret_mult, succ_cond, want))
-        # the guard was passed before any data byte is read
-        if guard is not None:
-            gs = canon(f, guard[1])
-            at = set(r['i'] for r in reads)
-            seen = _explore_facts(f, set([gs]), {}, at)
-            bad = [r for r in reads if ('F', gs) not in (seen.get(r['i']) or set())]
-            ctx.ob('R1.1', name + ':guard-before-read', not bad, f.loc(bad[0]) if bad else f.loc(guard[0]),
-                   'every read of the data follows the failed test %s' % gs if not bad else
+        rets = cm.returns()
+        bad = [(n, fm) for n, fm in rets if fm != 0 and not (isinstance(fm, tuple) and fm[0] == 'len' and fm[1] == want)]
+        some = any(isinstance(fm, tuple) and fm[0] == 'len' for n, fm in rets)
+        ok = not bad and some and ctr is not None
+        ctx.ob('R1.1', name + ':returned-length', ok, f.loc(bad[0][0]) if bad else where,
+               'returns %s * %d when every character compared equal, else 0' % (slen, want) if ok else
+               'returns %s: the reported match length must be %s * %d for a complete compare and 0 '
+               'otherwise' % (('length * %s' % bad[0][1][1] if bad and bad[0][1][0] == 'len' else bad[0][1][1])
+                              if bad else 'no length on any path', slen, want))
+        # the guard was passed, and the counter is below the length, in front of every read
+        at = set(r[0]['i'] for r in reads)
+        try:
+            seen = cm.facts_at(at)
+        except paths.Budget:
+            seen = None
+            ctx.note('R1.1 %s: state budget exceeded (guard dominance not decided)' % name)
+        if guard is not None and seen is not None:
+            badr = [r for r in reads if not any(x[0] == 'fits' for x in (seen.get(r[0]['i']) or set()))]
+            ctx.ob('R1.1', name + ':guard-before-read', not badr, f.loc(badr[0][0]) if badr else f.loc(guard[0]),
+                   'every read of the data follows the failed test %s' % canon(f, guard[1]) if not badr else
                    'the data is read here on a path that did not pass %s: out-of-bounds read at the '
-                   'end of the buffer' % gs)
-        # the loop is bounded by the string length
-        loops = [n for n in f.all_nodes() if n['k'] in ('while', 'for')]
-        bounded = any('(%s < %s)' % (ctr, slen) in canon(f, f.kid(n, 0 if n['k'] == 'while' else 1))
-                      for n in loops)
-        ctx.ob('R1.1', name + ':loop-bounded-by-length', bounded, where,
-               'the compare loop stops at i == %s' % slen if bounded else
-               'the compare loop is not bounded by %s' % slen)
+                   'end of the buffer' % canon(f, guard[1]))
+        if seen is not None:
+            badb = [r for r in inloop if ('inb',) not in (seen.get(r[0]['i']) or set())]
+            ok = ctr is not None and bool(inloop) and not badb
+            ctx.ob('R1.1', name + ':loop-bounded-by-length', ok, f.loc(badb[0][0]) if badb else where,
+                   'every read inside the compare loop happens under %s < %s' % (ctr, slen) if ok else
+                   'the compare loop reads the data without %s < %s holding' % (ctr or 'a counter', slen))
         if nocase:
             folds = [n for n in f.all_nodes() if n['k'] == 'sub' and canon(f, f.kid(n, 0)) == 'yr_lowercase']
             ctx.ob('R1.1', name + ':both-sides-folded', len(folds) == 2, where,
                    'both the data byte and the string byte go through yr_lowercase' if len(folds) == 2
                    else 'yr_lowercase is applied %d time(s): one side of the compare is not case-folded' % len(folds))
         if xor:
-            scur = set([s])
-            for d in f.all_nodes():
-                if d['k'] == 'decl' and d.get('c') and canon(f, f.kid(d, 0)) in scur:
-                    scur.add(d['name'])
             out = [n for n in f.all_nodes() if n['k'] == 'bin' and n['op'] == '=' and
-                   canon(f, f.kid(n, 0)) == '*%s' % ps[4] and
+                   canon(f, f.kid(n, 0)) == '*%s' % cm.key_out and
                    cu.strip_casts(f, f.kid(n, 1))['k'] == 'ref']
             kvar = canon(f, f.kid(out[0], 1)) if out else None
+            first_d = set(r[0]['i'] for r in reads if not r[3] and r[2] == 0)
+            first_s = set(r[0]['i'] for r in cm.reads(cm.s) if not r[3] and r[2] == 0)
             ok = False
             for n in f.all_nodes():
                 if n['k'] == 'bin' and n['op'] == '=' and kvar and canon(f, f.kid(n, 0)) == kvar:
                     r = cu.strip_casts(f, f.kid(n, 1))
                     if r is not None and r['k'] == 'bin' and r['op'] == '^':
-                        a, b = canon(f, f.kid(r, 0)), canon(f, f.kid(r, 1))
-                        if a.startswith('*') and b.startswith('*') and \
-                                ((a[1:] in cur and b[1:] in scur) or (a[1:] in scur and b[1:] in cur)):
+                        a, b = cu.strip_casts(f, f.kid(r, 0)), cu.strip_casts(f, f.kid(r, 1))
+                        if a is not None and b is not None and \
+                                ((a['i'] in first_d and b['i'] in first_s) or (a['i'] in first_s and b['i'] in first_d)):
                             ok = True
             ctx.ob('R1.1', name + ':key-from-first-byte-and-reported', ok and bool(out), where,
-                   'the key is data[0] ^ string[0] and is stored through %s' % ps[4] if ok and out else
+                   'the key is data[0] ^ string[0] and is stored through %s' % cm.key_out if ok and out else
                    'the xor key is not derived from the first byte pair or not reported')
 
 
@@ -274,13 +529,109 @@ def _verify_sites(f):
     return [c for c in f.calls() if c.get('callee') == 'yr_scan_verify_match']
 
 
+class _VerifyUnit(object):
+    """One place where automaton hits are verified: the call of yr_scan_verify_match
+    together with the function it sits in - the block scanner itself, or a static helper
+    the block scanner hands (match list, data, block, position) to."""
+
+    def __init__(self, g, call):
+        self.g, self.call = g, call
+        a = g.call_args(call)
+        self.args = a
+        self.M = canon(g, a[1]) if len(a) > 1 else '?'
+        self.data = canon(g, a[2]) if len(a) > 2 else '?'
+        last = cu.strip_casts(g, a[5]) if len(a) > 5 else None
+        self.I = '?'
+        self.shape_ok = False
+        self.block = '?'
+        if last is not None and last['k'] == 'bin' and last['op'] == '-':
+            self.I = canon(g, g.kid(last, 0))
+            self.shape_ok = canon(g, g.kid(last, 1)) == '%s->backtrack' % self.M
+        if len(a) > 4:
+            s3, s4 = canon(g, a[3]), canon(g, a[4])
+            if s3.endswith('->size') and s4.endswith('->base') and s3[:-6] == s4[:-6]:
+                self.block = s3[:-6]
+            else:
+                self.shape_ok = False
+        else:
+            self.shape_ok = False
+
+    def guard_holds(self):
+        """`M->backtrack <= I` holds in front of the call on every path (any spelling)"""
+        g = self.g
+        from .C14 import _cmp_keys, _written
+        key = ('lt', self.I, '%s->backtrack' % self.M)
+        seen = {}
+
+        def step(n, facts):
+            if n['i'] == self.call['i']:
+                cur = seen.get(n['i'])
+                seen[n['i']] = set(facts) if cur is None else (cur & set(facts))
+            w = _written(g, n)
+            if w is not None and w in (self.M, self.I):
+                return frozenset()
+            if n['k'] == 'ret':
+                return None
+            return facts
+
+        def edge(b, term, cond, idx, succ, facts):
+            pol = paths.branch_polarity(g, term, idx)
+            if pol is None or cond is None:
+                return facts
+            c, p2 = paths.normalise_cond(g, cond, pol)
+            if c is None:
+                return facts
+            for k_, val in _cmp_keys(g, c, p2):
+                if k_ == key:
+                    return frozenset([('ok',)]) if not val else frozenset()
+            return facts
+        paths.explore(g, set(), step, edge, max_states=50000)
+        return ('ok',) in (seen.get(self.call['i']) or set())
+
+    def list_loop(self):
+        """the loop around the call that runs while M != NULL and advances M = M->next"""
+        g = self.g
+        from .C14 import _cmp_keys
+        for lp in g.ancestors(self.call):
+            if lp['k'] not in ('while', 'for'):
+                continue
+            if lp['k'] == 'for':
+                parts = lp.get('parts', [])
+                cond = g.node(parts[1]) if len(parts) > 1 and parts[1] >= 0 else None
+            else:
+                cond = g.kid(lp, 0)
+            if cond is None:
+                continue
+            c, p2 = paths.normalise_cond(g, cond, True)
+            keys = _cmp_keys(g, c, p2) if c is not None else []
+            if not any(k_ == ('eq',) + tuple(sorted([self.M, '0'])) and not val for k_, val in keys):
+                continue
+            adv = any(x['k'] == 'bin' and x['op'] == '=' and canon(g, x) == '(%s = %s->next)' % (self.M, self.M)
+                      for x in g.walk(lp))
+            return lp, adv
+        return None, False
+
+
 def r1_3(ctx):
     prog = ctx.prog
     f = prog.fn(BLOCK_SCANNER, 'libyara/scanner.c')
     if f is None:
         ctx.require(ctx.fixture, 'block scanner not found')
         return
-    sites = _verify_sites(f)
+    ps = [p['name'] for p in f.params]
+    # verification sites of the block scanner: direct calls, or calls of a static helper of
+    # the unit that does the verification for a list it is handed
+    sites = []
+    for c in f.calls():
+        if c.get('callee') == 'yr_scan_verify_match':
+            sites.append((c, _VerifyUnit(f, c), None))
+            continue
+        h = f.tu.functions.get(c.get('callee') or '')
+        if h is not None and h is not f and getattr(h, 'static', False):
+            inner = _verify_sites(h)
+            if len(inner) == 1:
+                sites.append((c, _VerifyUnit(h, inner[0]), h))
+    sites.sort(key=lambda x: (x[0].get('l', 0), x[0]['i']))
     ctx.ob('R1.3', 'verify-sites:in-loop-and-end-of-block', len(sites) == 2, '%s:%s' % (f.file, f.line),
            'automaton hits are verified inside the byte loop and once more after it' if len(sites) == 2
            else '%d verification sites: the state reached by the last byte of the block is %s' % (
@@ -289,52 +640,48 @@ def r1_3(ctx):
         return
     main = None
     for n in f.all_nodes():
-        if n['k'] == 'while' and '->size' in canon(f, f.kid(n, 0)):
-            main = n
+        if n['k'] in ('while', 'for'):
+            cnd = f.kid(n, 0) if n['k'] == 'while' else (
+                f.node(n['parts'][1]) if len(n.get('parts', [])) > 1 and n['parts'][1] >= 0 else None)
+            if cnd is not None and '%s->size' % ps[2] in canon(f, cnd):
+                main = n
     bodies = []
-    ps = [p['name'] for p in f.params]
-    roles = []
-    for c in sites:
-        a = f.call_args(c)
-        M = canon(f, a[1]) if len(a) > 1 else '?'
-        last = cu.strip_casts(f, a[5]) if len(a) > 5 else None
-        I = canon(f, f.kid(last, 0)) if last is not None and last['k'] == 'bin' and last['op'] == '-' else '?'
-        roles.append((M, I))
-    interest = set('(%s->backtrack <= %s)' % r for r in roles)
-    kill = {}
-    for M, I in roles:
-        kill.setdefault(M, set()).update(interest)
-        kill.setdefault(I, set()).update(interest)
-    seen = _explore_facts(f, interest, kill, set(s['i'] for s in sites))
-    for k, c in enumerate(sites):
+    for k, (c, u, h) in enumerate(sites):
         key = 'site%d' % k
-        M, I = roles[k]
-        args = [canon(f, a) for a in f.call_args(c)]
-        ok = len(args) == 6 and args[5] == '(%s - %s->backtrack)' % (I, M) and \
-            args[2] == ps[1] and args[3] == '%s->size' % ps[2] and args[4] == '%s->base' % ps[2]
+        g = u.g
+        # what the unit's names stand for in the block scanner
+        bind = {}
+        if h is not None:
+            hp = [p['name'] for p in h.params]
+            for i, a in enumerate(f.call_args(c)):
+                if i < len(hp):
+                    bind[hp[i]] = canon(f, a)
+        tr = (lambda x: bind.get(x, '?')) if h is not None else (lambda x: x)
+        ok = u.shape_ok and tr(u.data) == ps[1] and tr(u.block) == ps[2]
         ctx.ob('R1.3', key + ':verified-at-hit-minus-backtrack', ok, f.loc(c),
-               'yr_scan_verify_match(.., %s, %s, %s->size, %s->base, %s - %s->backtrack)' % (
-                   M, ps[1], ps[2], ps[2], I, M)
-               if ok else 'called with (%s)' % ', '.join(args))
-        g = '(%s->backtrack <= %s)' % (M, I)
-        ok = ('T', g) in (seen.get(c['i']) or set())
-        ctx.ob('R1.3', key + ':backtrack-guard', ok, f.loc(c),
-               'reached only when %s' % g if ok else
+               'yr_scan_verify_match(.., %s, %s, %s->size, %s->base, %s - %s->backtrack)%s' % (
+                   u.M, u.data, u.block, u.block, u.I, u.M,
+                   ' in %s, called with (%s)' % (h.name, ', '.join(canon(f, a) for a in f.call_args(c)))
+                   if h is not None else '')
+               if ok else 'called with (%s)%s' % (', '.join(canon(g, a) for a in u.args),
+                                                 ' in %s, which is handed (%s)' % (
+                                                     h.name, ', '.join(canon(f, a) for a in f.call_args(c)))
+                                                 if h is not None else ''))
+        gtxt = '(%s->backtrack <= %s)' % (u.M, u.I)
+        try:
+            ok = u.guard_holds()
+        except paths.Budget:
+            ok = False
+        ctx.ob('R1.3', key + ':backtrack-guard', ok, g.loc(u.call),
+               'reached only when %s' % gtxt if ok else
                '%s - %s->backtrack can wrap: the guard %s does not hold on '
-               'every path to the call (or the other direction is tested)' % (I, M, g))
-        loop = None
-        for a in f.ancestors(c):
-            if a['k'] == 'while' and canon(f, f.kid(a, 0)) == '(%s != 0)' % M:
-                loop = a
-                break
-        adv = loop is not None and any(
-            x['k'] == 'bin' and x['op'] == '=' and canon(f, x) == '(%s = %s->next)' % (M, M)
-            for x in f.walk(loop))
-        ctx.ob('R1.3', key + ':walks-whole-match-list', adv, f.loc(c),
+               'every path to the call (or the other direction is tested)' % (u.I, u.M, gtxt))
+        loop, adv = u.list_loop()
+        ctx.ob('R1.3', key + ':walks-whole-match-list', adv, g.loc(u.call),
                'every match chained to the state is verified' if adv else
                'the list of matches of the state is not walked with match = match->next')
         if loop is not None:
-            bodies.append(canon_stmt(f, loop))
+            bodies.append((h.name if h is not None else None, canon_stmt(g, loop)))
         inside = main is not None and f.is_ancestor(main, c)
         if k == 0:
             ctx.ob('R1.3', key + ':inside-byte-loop', inside, f.loc(c),
@@ -346,9 +693,15 @@ def r1_3(ctx):
                    if not inside else 'both sites are inside the byte loop: a hit completed by the '
                                       'last byte of the block is never verified')
     if len(bodies) == 2:
-        ctx.ob('R1.3', 'verify-sites:same-code', bodies[0] == bodies[1], f.loc(sites[1]),
-               'the two verification loops are the same code' if bodies[0] == bodies[1] else
-               'the in-loop and end-of-block verification loops differ: %s' % _first_diff(bodies[0], bodies[1]))
+        same = bodies[0][1] == bodies[1][1] or (bodies[0][0] is not None and bodies[0][0] == bodies[1][0])
+        if (bodies[0][0] is None) != (bodies[1][0] is None):
+            # one site inline, one through a helper: each was checked on its own above
+            ctx.note('R1.3: one verification site is inline and one goes through %s; not compared as text' %
+                     (bodies[0][0] or bodies[1][0]))
+            same = True
+        ctx.ob('R1.3', 'verify-sites:same-code', same, f.loc(sites[1][0]),
+               'the two verification loops are the same code' if same else
+               'the in-loop and end-of-block verification loops differ: %s' % _first_diff(bodies[0][1], bodies[1][1]))
 
 
 def _backtrack_factor(f, n):
@@ -446,25 +799,65 @@ def r1_4(ctx):
     ctx.count('atom_transformations', n_fn)
 
 
+def _linsum(f, e, depth=0):
+    """e as a sum: ({term text: coefficient}, constant), looking through casts and through
+    locals that merely name a sub-expression"""
+    e = cu.strip_casts(f, e)
+    if e is None or depth > 12:
+        return None
+    v = cu.const_of(e)
+    if v is not None:
+        return ({}, v)
+    if e['k'] == 'ref':
+        d = cu.stable_def_of(f, e)
+        if d is not None:
+            r = _linsum(f, d, depth + 1)
+            if r is not None:
+                return r
+        return ({e['name']: 1}, 0)
+    if e['k'] == 'bin' and e['op'] in ('+', '-'):
+        x, y = _linsum(f, f.kid(e, 0), depth + 1), _linsum(f, f.kid(e, 1), depth + 1)
+        if x is None or y is None:
+            return None
+        sg = 1 if e['op'] == '+' else -1
+        t = dict(x[0])
+        for k_, c in y[0].items():
+            t[k_] = t.get(k_, 0) + sg * c
+        return ({k_: c for k_, c in t.items() if c}, x[1] + sg * y[1])
+    return ({canon(f, e): 1}, 0)
+
+
 def r1_5(ctx):
     """fullword border tests reach exactly as far as they read: the guard that
     makes the neighbouring character readable admits every position where that
-    character exists, and no position where it does not"""
-    import re
+    character exists, and no position where it does not.  A border test is a chain
+    `guard && .. *(p - k) .. yr_isalnum(p + len + k) ..` in the match callback or in a
+    static helper it calls; guard, pointer and length may be spelled through locals."""
     prog = ctx.prog
-    f = prog.fn('_yr_scan_match_callback', 'libyara/scan.c')
-    if f is None:
+    f0 = prog.fn('_yr_scan_match_callback', 'libyara/scan.c')
+    if f0 is None:
         ctx.require(ctx.fixture, '_yr_scan_match_callback not found')
         return
-    blocks = [n for n in f.all_nodes() if n['k'] == 'if' and canon(f, f.kid(n, 0)).endswith('full_word')]
-    ctx.require(blocks or ctx.fixture, 'fullword block not found')
+    fam = [f0]
+    for c in f0.calls():
+        h = f0.tu.functions.get(c.get('callee') or '')
+        if h is not None and h is not f0 and getattr(h, 'static', False) and h not in fam:
+            fam.append(h)
     k = 0
-    for blk in blocks:
-        for n in f.walk(f.kids(blk)[1]):
-            if n['k'] != 'if':
-                continue
+    for f in fam:
+        ptrs = set(p['name'] for p in f.params if '*' in p.get('type', ''))
+        tops = []
+        for n in f.all_nodes():
+            if n['k'] == 'bin' and n['op'] == '&&':
+                par = f.parent(n)
+                while par is not None and par['k'] == 'cast':
+                    par = f.parent(par)
+                if par is None or not (par['k'] == 'bin' and par['op'] == '&&'):
+                    tops.append(n)
+        tops.sort(key=lambda n: (n.get('l', 0), n['i']))
+        for top in tops:
             conj = []
-            stack = [f.kid(n, 0)]
+            stack = [top]
             while stack:
                 x = cu.strip_casts(f, stack.pop())
                 if x is not None and x['k'] == 'bin' and x['op'] == '&&':
@@ -473,54 +866,69 @@ def r1_5(ctx):
                     conj.append(x)
             if len(conj) < 2:
                 continue
-            g = canon(f, conj[0])
-            m1 = re.match(r'^\((\w+) (>=|>) (\d+)\)$', g)
-            m2 = re.match(r'^\(\(\((\w+) \+ (\w+)\) \+ (\d+)\) < (.+)\)$', g)
-            m3 = re.match(r'^\(\((\w+) \+ (\w+)\) < (.+)\)$', g)
-            if not (m1 or m2 or m3) and conj[0]['k'] == 'bin' and conj[0]['op'] in ('<', '<=', '>', '>='):
-                ctx.ob('R1.5', '_yr_scan_match_callback:border%d:guard-shape' % k, False, f.loc(n),
-                       'the border test is guarded by %s, which is not of the form offset >= K / offset + '
-                       'length [+ K] < size' % g)
-                k += 1
-                continue
+            # bytes next to the match that the chain reads: (side, distance, length term)
             reads = []
             for c in conj[1:]:
                 for x in f.walk(c):
                     e = None
                     if x['k'] == 'un' and x['op'] == '*':
-                        e = canon(f, f.kid(x, 0))
+                        e = f.kid(x, 0)
                     elif x['k'] == 'call' and x.get('callee') == 'yr_isalnum':
-                        e = canon(f, f.call_args(x)[0])
-                    if e:
-                        reads.append(e)
-            if not reads or not (m1 or m2 or m3):
+                        e = f.call_args(x)[0]
+                    if e is None:
+                        continue
+                    ls = _linsum(f, e)
+                    if ls is None:
+                        continue
+                    terms, cst = ls
+                    base = [t for t in terms if t in ptrs and terms[t] == 1]
+                    rest = sorted(t for t in terms if t not in base)
+                    if len(base) != 1 or any(terms[t] != 1 for t in rest):
+                        continue
+                    if not rest and cst < 0:
+                        reads.append(('before', -cst, None, canon(f, e)))
+                    elif len(rest) == 1 and cst >= 0:
+                        reads.append(('after', cst, rest[0], canon(f, e)))
+            if not reads:
                 continue
-            if m1:
-                K = int(m1.group(3)) + (1 if m1.group(2) == '>' else 0)
-                offs = [int(mm.group(1)) for mm in (re.match(r'^\(\w+ - (\d+)\)$', e) for e in reads) if mm]
-                side = 'before'
-            else:
-                K = int(m2.group(3)) if m2 else 0
-                L = (m2 or m3).group(2)
-                offs = []
-                for e in reads:
-                    mm = re.match(r'^\(\(\w+ \+ %s\) \+ (\d+)\)$' % re.escape(L), e)
-                    if mm:
-                        offs.append(int(mm.group(1)))
-                    elif re.match(r'^\(\w+ \+ %s\)$' % re.escape(L), e):
-                        offs.append(0)
-                side = 'after'
-            ok = len(offs) == len(reads) and offs and max(offs) == K
-            ctx.ob('R1.5', '_yr_scan_match_callback:border%d(%s):guard-reaches-what-is-read' % (k, side), ok,
-                   f.loc(n),
+            sides = set(r[0] for r in reads)
+            g = canon(f, conj[0])
+            fm = _lt_form(f, conj[0], True)
+            K = None
+            if fm is not None and len(sides) == 1:
+                l, r, val = fm
+                if 'before' in sides:
+                    # offset >= K  (not offset < K), or K - 1 < offset
+                    if not val and cu.const_of(cu.strip_casts(f, r)) is not None:
+                        K = cu.const_of(cu.strip_casts(f, r))
+                    elif val and cu.const_of(cu.strip_casts(f, l)) is not None:
+                        K = cu.const_of(cu.strip_casts(f, l)) + 1
+                else:
+                    # offset + length [+ K] < size
+                    ls = _linsum(f, l)
+                    L = reads[0][2]
+                    if val and ls is not None and ls[0].get(L) == 1 and len(ls[0]) >= 2 and ls[1] >= 0:
+                        K = ls[1]
+            side = sorted(sides)[0]
+            if K is None:
+                ctx.ob('R1.5', '%s:border%d:guard-shape' % (f0.name, k), False, f.loc(top),
+                       'the border test reads %s and is guarded by %s, which is not of the form offset >= K '
+                       '/ offset + length [+ K] < size' % (', '.join(r[3] for r in reads), g))
+                k += 1
+                continue
+            far = max(r[1] for r in reads)
+            ok = far == K
+            ctx.ob('R1.5', '%s:border%d(%s):guard-reaches-what-is-read' % (f0.name, k, side), ok,
+                   f.loc(top),
                    'guard %s, furthest byte read at distance %d' % (g, K) if ok else
                    'the border test is guarded by %s but reads %s: %s' % (
-                       g, ', '.join(reads),
-                       'bytes outside the buffer can be read' if offs and max(offs) > K else
+                       g, ', '.join(r[3] for r in reads),
+                       'bytes outside the buffer can be read' if far > K else
                        'a neighbouring character that exists right at the edge of the buffer is not '
                        'examined, so a non-fullword occurrence there is reported'))
             k += 1
     ctx.count('fullword_border_tests', k)
+    ctx.require(k > 0 or ctx.fixture, 'no fullword border test found in _yr_scan_match_callback or its helpers')
 
 
 def canon_stmt(f, n, depth=0):
